@@ -13,9 +13,21 @@
                  [0]                      null
                  [1; l1; c1; l2; c2]      one range (30-33, 36)
                  1 :: n :: n * [l1; c1; l2; c2]   a list of ranges (34, 35), in the order of the answer
-   [4] = malformed command. *)
+   [4] = malformed command.
+
+   Command 37 (arguments: sel, then the document text; sel = 1: go-to, 2: references, 3: both) decides
+   the instances of the full statements C12_full_statement / C13_full_statement (Spec/Nav.v) on one
+   document:
+       [3] / [2] as above, else
+       w :: clean :: n :: n * [byte offset of the occurrence's identifier token] :: k12 :: k12 * [i] :: k13 :: k13 * [i]
+   clean = 1 iff the text is analysed without diagnostics (Nav.is_clean: the hypothesis clean_doc),
+   n = number of occurrences (Nav.occurrences), then the indices i of the occurrences at which
+   Nav.agrees_at (the four go-to handlers = spec_declaration / spec_type_definition /
+   spec_implementation at the first and the last column of the token; only if sel has bit 1) resp.
+   Nav.refs_agree_at (references / rename / prepareRename = spec_references / spec_rename /
+   spec_prepare; only if sel has bit 2) is false. *)
 From Spl Require Export Judge.Dump.
-From Spl Require Import Model.Goto Model.Refs.
+From Spl Require Import Model.Goto Model.Refs Spec.Nav.
 
 Definition enc_loc (l : loc) : list N :=
   [fst (fst l); snd (fst l); fst (snd l); snd (snd l)].
@@ -72,6 +84,29 @@ Definition run_nav (cmd : N) (args : list N) : list N :=
           | OFuel => [2]
           end
       | None => [4]
+      end
+  | [] => [4]
+  end.
+
+(* command 37 *)
+Definition failing (f : doc -> occ -> bool) (d : doc) (occs : list occ) : list nat :=
+  map fst (filter (fun p => negb (f d (snd p))) (combine (seq 0 (length occs)) occs)).
+
+Definition occ_offset (d : doc) (o : occ) : N :=
+  match nth_error (d_toks d) (o_tok o) with Some t => ts t | None => 0 end.
+
+Definition run_nav_full (args : list N) : list N :=
+  match args with
+  | sel :: t =>
+      match new_doc_res t with
+      | ODone d =>
+          let occs := occurrences (d_ast d) in
+          (if nav_wf_b d then 0 else 7) :: (if is_clean t then 1 else 0)
+          :: enc_list (fun o => [occ_offset d o]) occs
+          ++ enc_list (fun i => [N.of_nat i]) (if N.testbit sel 0 then failing agrees_at d occs else [])
+          ++ enc_list (fun i => [N.of_nat i]) (if N.testbit sel 1 then failing refs_agree_at d occs else [])
+      | OFail _ => [3]
+      | OFuel => [2]
       end
   | [] => [4]
   end.
